@@ -4,11 +4,18 @@
   `Driver/*` (no Mathlib, no proofs), so it links as a native executable.
 -/
 import MantraDex.Driver.EpochStream
+import MantraDex.Driver.PoolStream
 
 open MantraDex MantraDex.Driver
 
 def dispatch (op : String) (args : List String) : String :=
   match epochOp op args with
+  | some r => r
+  | none =>
+  match swapmathOp op args with
+  | some r => r
+  | none =>
+  match mintmathOp op args with
   | some r => r
   | none => "bad-op"
 
